@@ -11,6 +11,7 @@ type PostLog struct {
 	Author  ptttype.UserID_t
 	Board   ptttype.BoardID_t
 	Title   ptttype.Title_t
+	Pad     byte /* postlog_t.title is char[66] in pttbbs; keeps the packed image at 100 bytes */
 	TheDate types.Time4
 	Number  int32
 }
